@@ -417,10 +417,12 @@ def gen_C09(rng, tier):
               C.query(0, "percentile", ps=ps), C.query(0, "fractile", ps=[p / 100 for p in ps]),
               C.query(0, "median"), C.query(0, "mode"), C.query(0, "value_sums"),
               C.query(0, "describe", lo=None, hi=None, ps=[F(25), F(50), F(75)]) if pow2 else C.query(0, "median"),
+              C.query(0, "describe", lo=pts[0], hi=pts[-1], ps=[F(0), F(100)]) if pow2 else C.query(0, "mode"),
               C.query(0, "hist", bins=bins, closed=rng.choice(SIDES), stat=hstat)]
         rng.shuffle(qs)
-        prog = [leaf_stmt(0, f, c)] + qs[: rng.randint(4, 8)]
-        cases.append(mk(f"C09/{'pow2' if pow2 else 'gen'}/{k}", prog, flav(rng, has_nan(f)), mode="exact" if pow2 else "tol", tags=["dist"]))
+        prog = [leaf_stmt(0, f, c)] + qs[: rng.randint(4, 9)]
+        exact = pow2 and not any(q["q"] == "describe" for q in prog[1:])      # describe reports std: sqrt, then squared again
+        cases.append(mk(f"C09/{'pow2' if pow2 else 'gen'}/{k}", prog, flav(rng, has_nan(f)), mode="exact" if exact else "tol", tags=["dist"]))
     return cases
 
 
